@@ -83,7 +83,9 @@ FnSpellings == { <<97,116,116,114,105,98,117,116,101,95,101,120,105,115,116,115>
                  <<115,105,122,101>>, <<105,102,95,110,111,116,95,101,120,105,115,116,115>>, <<108,105,115,116,95,97,112,112,101,110,100>> }
 TokAt(ts, p) == IF p <= Len(ts) THEN ts[p].t ELSE "EOF"
 \* a bare attribute name (a NAME token that is not a function call) that is a reserved word, in any position (C16)
-ReservedUse(ts) == \E p \in DOMAIN ts : ts[p].t = "NAME" /\ TokAt(ts, p + 1) # "(" /\ UpperSeq(ts[p].s) \in ReservedWords
+ReservedByLen == [n \in 1..20 |-> { w \in ReservedWords : Len(w) = n }]
+IsReserved(bs) == Len(bs) \in 1..20 /\ UpperSeq(bs) \in ReservedByLen[Len(bs)]
+ReservedUse(ts) == \E p \in DOMAIN ts : ts[p].t = "NAME" /\ TokAt(ts, p + 1) # "(" /\ IsReserved(ts[p].s)
 \* a function name used as a plain attribute name: the references do not say whether that is allowed
 FnNameAsAttr(ts) == \E p \in DOMAIN ts : ts[p].t = "NAME" /\ TokAt(ts, p + 1) # "(" /\ ts[p].s \in FnSpellings
 \* a keyword written in another letter case: a keyword all the same, or a rejected expression (D.2) - never a name
@@ -93,9 +95,10 @@ OddCaseKeyword(ts) == \E p \in DOMAIN ts : ts[p].t \in Keywords /\ ts[p].s # Upp
 (* attribute names are TLA+ strings in the trees; the judge receives them as bytes.  Names(b) maps the byte
    spelling of every name the harness can use to its string; a spelling outside the table stays unparsed.   *)
 CONSTANT NameTable     \* sequence of <<bytes, string>>
-NameOf(bs) == LET hit == { i \in DOMAIN NameTable : NameTable[i][1] = bs }
-              IN IF hit = {} THEN "?" ELSE NameTable[CHOOSE i \in hit : TRUE][2]
-Known(bs) == \E i \in DOMAIN NameTable : NameTable[i][1] = bs
+\* the table as a function bytes -> string (built once; lookups are then logarithmic)
+NameFn == [b \in { NameTable[i][1] : i \in DOMAIN NameTable } |-> NameTable[CHOOSE i \in DOMAIN NameTable : NameTable[i][1] = b][2]]
+NameOf(bs) == IF bs \in DOMAIN NameFn THEN NameFn[bs] ELSE "?"
+Known(bs) == bs \in DOMAIN NameFn
 
 RECURSIVE DigitsVal(_)
 DigitsVal(s) == IF s = <<>> THEN 0 ELSE DigitsVal(SubSeq(s, 1, Len(s) - 1)) * 10 + (s[Len(s)] - 48)
